@@ -87,6 +87,28 @@ pub fn ps(pubs: &[usize], subs: usize, order: &str, faults: bool, close: bool, h
         hostile,
         any_order: false,
         owner: None,
+        gate: false,
+    }
+}
+
+/// the same pub/sub scenario with ready-gated sinks
+fn ps_gated(mut p: PubSub) -> PubSub {
+    p.gate = true;
+    p.name.push_str(":gate");
+    p
+}
+
+/// the same request/reply scenario with ready-gated sinks
+fn rr_gated(mut r: ReqRep) -> ReqRep {
+    r.gate = true;
+    r.name.push_str(":gate");
+    r
+}
+
+/// pub/sub with sinks that may refuse more data while holding nothing unflushed
+fn gated_ps_families(bound: usize, out: &mut Vec<Spec>) {
+    for (pubs, subs, order) in [(&[2usize][..], 2usize, "sf"), (&[2, 2][..], 1, "pf"), (&[1, 1][..], 2, "il")] {
+        out.push(Spec { scn: Scn::Ps(ps_gated(ps(pubs, subs, order, false, false, false))), bound });
     }
 }
 
@@ -167,6 +189,7 @@ pub fn rr(tag: &str, requestors: Vec<Vec<ReqKind>>, repliers: Vec<Vec<ReplyMode>
         hostile,
         owner,
         any_order: false,
+        gate: false,
     }
 }
 
@@ -181,6 +204,9 @@ fn routing_families(tier: &str, bound: usize, out: &mut Vec<Spec>) {
     for order in ["rf", "qf"] {
         out.push(Spec { scn: Scn::Rr(rr("basic", vec![plain(2)], vec![vec![]], order, vec![0], false, false, false, false, "C02")), bound: bound + 1 });
     }
+    // the same with sinks that may refuse more data while holding nothing unflushed
+    out.push(Spec { scn: Scn::Rr(rr_gated(rr("basic", vec![plain(2)], vec![vec![]], "rf", vec![0], false, false, false, false, "C02"))), bound: bound + 1 });
+    out.push(Spec { scn: Scn::Rr(rr_gated(rr("two", vec![plain(2), plain(1)], vec![vec![]], "rf", vec![0, 1], false, false, false, false, "C02"))), bound });
     // two requestors with colliding request ids, every router order
     for ranks in perms(2) {
         for order in ["rf", "qf"] {
@@ -307,6 +333,14 @@ fn shutdown_families(bound: usize, out: &mut Vec<Spec>) {
     out.push(Spec { scn: Scn::Rr(rr("only-requestors", vec![plain(1)], vec![], "qf", vec![0], false, true, false, false, "C16")), bound });
     out.push(Spec { scn: Scn::Rr(rr("only-replier", vec![], vec![vec![]], "rf", vec![], false, true, false, false, "C16")), bound });
     out.push(Spec { scn: Scn::Rr(rr("reject", vec![plain(1)], vec![vec![], vec![]], "rf", vec![0], false, true, false, false, "C16")), bound });
+    // sinks that may refuse more data while holding nothing unflushed
+    out.push(Spec { scn: Scn::Rr(rr_gated(rr("basic", vec![plain(2)], vec![vec![]], "rf", vec![0], false, true, false, false, "C16"))), bound });
+    out.push(Spec { scn: Scn::Rr(rr_gated(rr("two", vec![plain(1), plain(1)], vec![vec![]], "rf", vec![0, 1], false, true, false, false, "C16"))), bound: bound.saturating_sub(1).max(2) });
+    for (pubs, subs) in [(&[2usize][..], 1usize), (&[1, 1][..], 2)] {
+        let mut p = ps_gated(ps(pubs, subs, "sf", false, true, false));
+        p.owner = Some("C16");
+        out.push(Spec { scn: Scn::Ps(p), bound });
+    }
 }
 
 fn fault_families(tier: &str, bound: usize, out: &mut Vec<Spec>) {
@@ -369,6 +403,11 @@ pub fn families(id: &str, tier: &str) -> Vec<Spec> {
             }
         }
     }
+    // VERIF_ONLY_FAMILY=<substring>: debugging aid, restricts a run to the families whose name
+    // contains it (the evidence then says so through its family list)
+    if let Ok(only) = std::env::var("VERIF_ONLY_FAMILY") {
+        out.retain(|sp| sp.scn.name().contains(&only));
+    }
     out
 }
 
@@ -380,6 +419,7 @@ fn families_base(id: &str, tier: &str) -> Vec<Spec> {
             let b = if thorough { 6 } else { 3 };
             ps_set(&[(&[2], 1), (&[2], 2), (&[2, 2], 1), (&[2, 2], 2), (&[1], 3), (&[0, 1], 1)], false, false, false, b, &mut out);
             burst_families(&mut out);
+            gated_ps_families(b, &mut out);
             any_order_families("ps", b.saturating_sub(1), &mut out);
             many_peer_families("ps", &mut out);
             // a publisher leaves while another stays and a third one joins
@@ -406,6 +446,7 @@ fn families_base(id: &str, tier: &str) -> Vec<Spec> {
             ps_set(&[(&[2], 1), (&[2], 2), (&[2, 2], 1), (&[2, 2], 2), (&[1], 3)], false, false, false, b, &mut out);
             routing_families(tier, b, &mut out);
             burst_families(&mut out);
+            gated_ps_families(b, &mut out);
             any_order_families("all", b.saturating_sub(1), &mut out);
             many_peer_families("all", &mut out);
             one_sided(b, &mut out);
